@@ -33,7 +33,7 @@ reg("C01", "^TestC01", q=(600, 1, 600), t=(4000, 16, 3000), batch=300,
     design="§3 C01")
 
 reg("C04", "^TestC04$", q=(150, 4, 900), t=(1500, 16, 3600), batch=150,
-    technique="property-based testing, metamorphic: rapid-generated histories with reorgs vs a twin store fed only the surviving blocks, compared over a reflection-enumerated query battery and table dumps; enumerated faults inside the reorg transaction; client-abandoned queries (cancelled contexts) before reorgs and concurrent queries during them; new forks that arrive with a hole in the deposit counts (1..6, or exactly what the reorg removed) judged against the twin's answer",
+    technique="property-based testing, metamorphic: rapid-generated histories with reorgs vs a twin store fed only the surviving blocks, compared over a reflection-enumerated query battery and table dumps; enumerated faults inside the reorg transaction; client-abandoned queries (cancelled contexts) before reorgs and concurrent queries during them; new forks whose first deposit count is wrong (ahead by 1..6 or by exactly what the reorg removed, 0 again, the last stored count) judged against the twin's answer",
     text="Exploration: for each of the three stores, generated histories (all event kinds) with nested reorgs and new-fork "
          "continuations; after every reorg and continuation the real store must answer every exported query, and hold every table, "
          "exactly like a fresh store that only ever saw the surviving blocks.",
@@ -41,7 +41,7 @@ reg("C04", "^TestC04$", q=(150, 4, 900), t=(1500, 16, 3600), batch=150,
     design="§3 C04")
 
 reg("C07", "^TestC07(Driver)?$", q=(40, 4, 900), t=(400, 16, 3600), batch=40, level="fault_enumeration",
-    technique="property-based testing with enumerated fault injection: rapid-generated histories; SQL-trigger faults at every row-writing statement of the target block's transaction in turn, contexts cancelled at an enumerated observation point (scripted context), unreadable node tables, failing COMMITs (deferred foreign key), restarts; driver-level leg (public l1infotreesync.New on a scripted chain with a storage fault on one block's tree root); oracle = pre-block snapshot equality and a fault-free twin run",
+    technique="property-based testing with enumerated fault injection: rapid-generated histories; SQL-trigger faults at every row-writing statement of the target block's transaction in turn, contexts cancelled at an enumerated observation point (scripted context), unreadable node tables, failing COMMITs (deferred foreign key), restarts; driver-level leg (public l1infotreesync.New on a scripted chain with a storage fault on one block's tree root or on the block row of any block, block rows compared with a fault-free twin); oracle = pre-block snapshot equality and a fault-free twin run",
     text="Fault enumeration: for generated histories of the three stores, each storage statement of the target block's transaction "
          "is failed in turn (trigger from a second connection); after the failure nothing of the block is visible, after the retry "
          "and the remaining blocks every table, query, root and proof equals a fault-free twin.",
@@ -79,7 +79,7 @@ reg("C05", "^TestC05$", q=(300, 4, 900), t=(3000, 16, 3600), batch=300,
     design="§3 C05")
 
 reg("C16", "^TestC16(FEP)?$", q=(80, 4, 900), t=(800, 16, 3600), batch=120,
-    technique="property-based testing: rapid-generated L2 GER insert/remove histories (out-of-order indexes, re-injected roots, thousands of event-less blocks between two polls), polling cadences, a lagging L1 info syncer, syncers following the latest or the safe block, and restarts through the public lastgersync.New (PP mode; a quarter of the budget in FEP mode, where the scripted chain answers the downloader's eth_call to the L2 GER contract) + real reorg detector on a scripted chain; oracle = reference set of live injected GERs",
+    technique="property-based testing: rapid-generated L2 GER insert/remove histories (out-of-order indexes, re-injected roots, thousands of event-less blocks between two polls), polling cadences, a lagging L1 info syncer, syncers following the latest or the safe block, an L2 GER contract that stores timestamps or block hashes, and restarts through the public lastgersync.New (PP mode; a quarter of the budget in FEP mode, where the scripted chain answers the downloader's eth_call to the L2 GER contract) + real reorg detector on a scripted chain; oracle = reference set of live injected GERs",
     text="Exploration: the public constructor's syncer (real PP downloader, driver, processor, reorg detector) follows a scripted L2 "
          "chain whose tip advances by 1..10 blocks between polls, with restarts; at quiescence every index query must return a live "
          "injected GER with index >= X whenever one exists.",
@@ -87,7 +87,7 @@ reg("C16", "^TestC16(FEP)?$", q=(80, 4, 900), t=(800, 16, 3600), batch=120,
     design="§3 C16")
 
 reg("C20", "^TestC20(E2E)?$", q=(3000, 4, 600), t=(30000, 16, 3000), fuzz=("FuzzC20", 180),
-    technique="property-based testing: grammar-generated call trees with the tracer's frame types (rapid) + native coverage-guided fuzzing through a structured byte decoder; end-to-end leg through the public NewL2 incl. a transaction re-executed on a new fork during the download and transient debug_traceTransaction failures; oracle = recursive specification of the live matching call",
+    technique="property-based testing: grammar-generated call trees with the tracer's frame types and batch frames of more than a thousand calls (rapid) + native coverage-guided fuzzing through a structured byte decoder; end-to-end leg through the public NewL2 incl. a transaction re-executed on a new fork during the download and transient debug_traceTransaction failures; oracle = recursive specification of the live matching call",
     text="Exploration: generated debug_traceTransaction call trees (both ABI generations packed with the real contract ABIs, reverted "
          "frames anywhere, decoys) are fed to the real setClaimCalldata/findCall/decode path; the recorded details must be those of a "
          "live matching bridge call, or an error with the claim untouched.",
@@ -135,7 +135,7 @@ reg("C13", "^TestC13$", q=(150, 4, 1500), t=(600, 16, 5400), batch=40, level="fa
     design="§3 C13")
 
 reg("C15", "^TestC15$", q=(200, 4, 900), t=(3000, 16, 3600), batch=300,
-    technique="property-based testing, stateful: rapid-generated L1 histories and schedules (finality, sparse syncer progress, L1 reorgs above the finalized block, ticks, transient faults, external injections, client-abandoned queries before reorgs) over the real AggOracle tick body and real L1 info store; oracle = safety of each injection + bounded progress; a store that refuses the next valid block after a reorg is judged",
+    technique="property-based testing, stateful: rapid-generated L1 histories and schedules (finality, sparse syncer progress, L1 reorgs above the finalized block, ticks, transient faults, external injections, client-abandoned queries before reorgs, batch verifications interleaved with the info updates) over the real AggOracle tick body and real L1 info store; oracle = safety of each injection + bounded progress; a store that refuses the next valid block after a reorg is judged",
     text="Exploration: the body of the oracle's loop iteration (processLatestGER + error handling, sticky target held by the harness) "
          "runs against the real L1 info store fed block by block ('syncer behind' = blocks not fed yet), a scripted L1 client and a "
          "recording model of the L2 GER contract.",
@@ -143,7 +143,7 @@ reg("C15", "^TestC15$", q=(200, 4, 900), t=(3000, 16, 3600), batch=300,
     design="§3 C15")
 
 reg("C12", "^TestC12$", q=(120, 4, 900), t=(800, 16, 3600), batch=60,
-    technique="property-based testing: rapid-generated joint L1/L2 worlds; all (bridge, covering L1 info leaf) pairs for small worlds through the real gin handlers over the real stores, also across an L1 reorg between two rounds of requests and while the L1 bridge syncer is behind the L1 info syncer; oracle = reference verifyMerkleProof chain and a coverage predicate",
+    technique="property-based testing: rapid-generated joint L1/L2 worlds; all (bridge, covering L1 info leaf) pairs for small worlds through the real gin handlers over the real stores, also across an L1 reorg between two rounds of requests and while the L1 bridge syncer is behind the L1 info syncer, request numbers in canonical or zero-padded decimal; oracle = reference verifyMerkleProof chain and a coverage predicate",
     text="Exploration: /claim-proof, /l1-info-tree-index and /injected-l1-info-leaf are invoked through the real handlers (real "
          "parameter parsing, real JSON) over real bridge, L1 info and injected-GER stores fed by a generated world; proofs must hash "
          "the bridge leaf to the MER, or to the LER and on to the RER, of the requested L1 info leaf; a returned index must cover the bridge.",
